@@ -277,7 +277,7 @@ def gen_for(prop):
             if T:
                 cs += fault_sweep(r, 11, kind="read", nk=8); cs += walks(r, 60, families=("readfaults",))
         elif prop == "C03":
-            for amount in ([1, 1000, 21000, 10**6, 10**9, 10**12, 2**32 - 1, 2**32 + 1, 2**62] if T else [1, 21000, 10**9, 2**32 + 1]):
+            for amount in ([1, 1000, 21000, 10**6, 10**9, 10**12, 2**32 - 1, 2**32 + 1, 10**18] if T else [1, 21000, 10**9, 2**32 + 1]):
                 cs += [story_case(r.fork(), ending=r.choice(PAY_ENDINGS), amount=amount, npieces=1 + i % 3) for i in range(6 if T else 3)]
             cs += reject_stories(r, 16 * k); cs += bursts(r, 12 * k)
             cs += crash_sweep(r, 2 * k, 3)
@@ -370,7 +370,7 @@ def restart_history_cases(r, n):
     return out
 
 def run_prop(prop, tier, seed, profiles=("dev",)):
-    extra = {"C03": "amounts from 1 msat to 2^62 in 1-3 pieces; the wrapping (release) build is run as well. ",
+    extra = {"C03": "amounts from 1 msat to 10^18 msat (the largest the invoice encoder takes) in 1-3 pieces; the wrapping (release) build is run as well. ",
              "C09": "every trace ends with the probe: crash, a fully funded cooperative HTLC set (a second one if the first meets a zero MPP remainder), which must be settled. ",
              "C11": "timeout cases tick to 1 ms before the deadline (no response allowed) and then to the deadline (all failed); restarts in the middle with aged attempts. "}.get(prop, "")
     return run_property(prop, tier, seed, gen_for(prop), rule=BASE_RULE + extra, assumptions=COMMON_ASSUME, profiles=profiles)
